@@ -56,6 +56,13 @@ func gapOK(g []byte, nextIsAnn, prevIsAnn bool) (bool, string) {
 	return true, ""
 }
 
+// TriviaOnly says whether the text is nothing but blanks, line ends and
+// comments (the gap recogniser applied to a whole text).
+func TriviaOnly(s string) bool {
+	ok, _ := gapOK([]byte(s), false, false)
+	return ok
+}
+
 // ScanAll runs the scanner alone to the end of the input.
 func ScanAll(src string) (ls []Lx, scanErr string, panicked string) {
 	defer func() {
